@@ -2,10 +2,10 @@ SPECIFICATION LSpec
 CONSTANTS
   Kinds = {"minmax", "min", "max", "limits"}
   Lo = 0
-  Hi = 4
-  PVals = {0, 1, 2, 3, 4, 5}
-  LVals = {0, 1, 2, 3, 4}
-  ForbSets = {{}, {3}}
+  Hi = 6
+  PVals = {0, 1, 2, 3, 4, 5, 6, 7}
+  LVals = {0, 1, 2, 3, 4, 5, 6}
+  ForbSets = {{}, {3}, {2, 5}}
 INVARIANT TypeOK
 INVARIANT TupleNeverInverted
 PROPERTY AcceptedInside
